@@ -241,6 +241,8 @@ func c16Run(t *testing.T, run *Run, sc c16Scenario, rng *rand.Rand) {
 	}
 	nreq := 0
 	classes := map[string]bool{}
+	var redirCases [][3]string   // host, path+query, expected Location
+	var refusedCases [][3]string // sni, host header, path
 	// (a) plain HTTP
 	for _, h := range c16ReqHosts {
 		for _, p := range c16Paths {
@@ -272,6 +274,9 @@ func c16Run(t *testing.T, run *Run, sc c16Scenario, rng *rand.Rand) {
 					return
 				}
 				classes["redirect|root="+fmt.Sprint(isRoot(byName[name]))] = true
+				if len(redirCases) < 24 {
+					redirCases = append(redirCases, [3]string{h, p + q, want})
+				}
 			} else if r.Status != 200 || r.Target != "svc-"+name+":80" {
 				fail("plain-not-forwarded", "plain request Host %q %s to service %s (tls=%v redirect=%v): status=%d target=%q", h, p, name, en, red, r.Status, r.Target)
 				return
@@ -329,6 +334,9 @@ func c16Run(t *testing.T, run *Run, sc c16Scenario, rng *rand.Rand) {
 						return
 					}
 					classes["tls-refused-503|root="+fmt.Sprint(isRoot(byName[name]))] = true
+					if len(refusedCases) < 12 {
+						refusedCases = append(refusedCases, [3]string{sni, hostHdr, p})
+					}
 				} else if r.Status != 200 || r.Target != "svc-"+name+":80" {
 					fail("tls-request-not-forwarded", "request over TLS for Host %s %s to TLS service %s: status=%d target=%q", hostHdr, p, name, r.Status, r.Target)
 					return
@@ -337,6 +345,55 @@ func c16Run(t *testing.T, run *Run, sc c16Scenario, rng *rand.Rand) {
 				}
 			}
 		}
+	}
+	// (b') the TLS policy comes before the pause gate: with every service paused, and then stopped,
+	// the decisions that the policy makes are the same and immediate (C07: health-check requests get
+	// their 200 "once the TLS policy of C16 has been applied")
+	for _, state := range []string{"paused", "stopped"} {
+		for _, sv := range final {
+			var rec *CmdRec
+			if state == "paused" {
+				rec = w.Pause(sv.Name, time.Second, 5*time.Second)
+			} else {
+				rec = w.Stop(sv.Name, time.Second, "stopped for the TLS policy check")
+			}
+			if rec.Err != "" || rec.Panic != "" {
+				fail("gate-command-failed", "%s %s: %s %s", state, sv.Name, rec.Err, rec.Panic)
+				return
+			}
+		}
+		for _, c := range redirCases {
+			for _, path := range []string{c[1], "/up"} {
+				nreq++
+				want := c[2]
+				if path == "/up" {
+					want = "https://" + refHost(c[0]) + "/up"
+					if refRoute(tbl, c[0], "/up") != refRoute(tbl, c[0], strings.SplitN(c[1], "?", 2)[0]) {
+						continue // /up belongs to another service of that host
+					}
+				}
+				r := w.Do(Req{ID: fmt.Sprintf("g%d", nreq), Host: c[0], Path: path})
+				if r.Status != 301 || r.Header.Get("Location") != want || r.Target != "" || r.Done-r.Sent > Eps {
+					fail("redirect-wrong:"+state, "plain request Host %q %s to a %s TLS+redirect service: status=%d Location=%q after %v, expected an immediate 301 to %q", c[0], path, state, r.Status, r.Header.Get("Location"), r.Done-r.Sent, want)
+					return
+				}
+				classes["redirect-while-"+state] = true
+			}
+		}
+		if state == "paused" {
+			for _, c := range refusedCases {
+				nreq++
+				r := w.Do(Req{ID: fmt.Sprintf("g%d", nreq), Host: c[1], Path: c[2], TLS: true, SNI: c[0]})
+				if r.Status != 503 || r.Target != "" || r.Done-r.Sent > Eps {
+					fail("tls-request-to-plain-service:paused", "request over TLS (SNI %s) for Host %s %s to a paused service with TLS off: status=%d after %v, expected an immediate 503", c[0], c[1], c[2], r.Status, r.Done-r.Sent)
+					return
+				}
+				classes["tls-refused-503-while-paused"] = true
+			}
+		}
+	}
+	for _, sv := range final {
+		w.Resume(sv.Name)
 	}
 	// (c) automatic TLS is refused for wildcard hosts
 	bad := Cmd{Kind: "deploy", Svc: "acmewild", Targets: []string{"svc-acmewild:80"}, Hosts: []string{"*.acme.example"}, TLS: "acme", DeployTO: 2 * time.Second, DrainTO: time.Second}
